@@ -93,9 +93,9 @@ FragSamplesR(moofs, id, trexDur, i, j, acc) ==
                          [acc EXCEPT !.samples = @ \o RunSamples(moofs[i].off, tf, trexDur),
                                      !.nfrag = @ + 1,
                                      !.largeMoof = @ \/ (moofs[i].large /\ ~tf.tfhd.base_data_offset.some),
-                                     !.defaultDurLater = @ \/ (acc.nfrag >= 1 /\ ~FlagSet(tf.trun.v.flags, TRUN_DUR)
-                                                               /\ ToInt(tf.trun.v.sample_count) > 0)])
+                                     !.usesTrex = @ \/ (~FlagSet(tf.trun.v.flags, TRUN_DUR) /\ ~tf.tfhd.default_sample_duration.some
+                                                        /\ ToInt(tf.trun.v.sample_count) > 0)])
 FragSamples(moofs, id, trexDur) ==
   FragSamplesR(moofs, id, trexDur, 1, 1,
-               [inDomain |-> TRUE, samples |-> <<>>, nfrag |-> 0, largeMoof |-> FALSE, defaultDurLater |-> FALSE])
+               [inDomain |-> TRUE, samples |-> <<>>, nfrag |-> 0, largeMoof |-> FALSE, usesTrex |-> FALSE])
 =============================================================================
